@@ -1,4 +1,4 @@
-import JanetModel.Wait.Epoch
+import JanetModel.Wait.EpochCount
 import JanetModel.Wait.RoundRN
 import JanetModel.Gen.Wait
 /-
@@ -312,6 +312,22 @@ theorem resumed_only_by_registration_of_current_wait (cfg : Cfg) (hc : cfg.allCh
     ∀ e ∈ (run cfg init ops).log, e.task.regEpoch = e.epochAtRun :=
   fun e he => (run_E cfg hc ops init_EInv).lg e he
 
+/-- the ghost epoch is what its name says — under ANY configuration and step sequence `epoch f` is the number of events of fiber `f`
+in the log (resumes so far), and each event's `epochAtRun` is the number of earlier events of its fiber (Wait/EpochCount.lean) -/
+theorem epoch_counts_resumes (cfg : Cfg) (ops : List Op) :
+    (∀ f, ((run cfg init ops).fibers f).epoch = resumesOf f (run cfg init ops).log) ∧ LogOk (run cfg init ops).log :=
+  ⟨(run_CInv cfg ops init_CInv).ep, (run_CInv cfg ops init_CInv).lg⟩
+
+/-- ★ the two together, without ghost vocabulary in the conclusion: split the log (newest first) at any executed task `e`; the
+registration or request `e` stems from was made when its fiber had been resumed exactly as often as it had been before `e` ran —
+that is, after the fiber's previous resume and before this one. -/
+theorem registration_made_since_previous_resume (cfg : Cfg) (hc : cfg.allChecked = true) (ops : List Op)
+    (pre : List Event) (e : Event) (rest : List Event) (hsplit : (run cfg init ops).log = pre ++ e :: rest) :
+    e.task.regEpoch = resumesOf e.fiber rest := by
+  have h1 := resumed_only_by_registration_of_current_wait cfg hc ops e (by rw [hsplit]; simp)
+  have h2 : LogOk (pre ++ e :: rest) := by rw [← hsplit]; exact (epoch_counts_resumes cfg ops).2
+  rw [h1]; exact h2.at
+
 /-- … and the records behind it: in every reachable world, a pending entry / timer / process-wait record whose generation is still
 the fiber's current one was made in the fiber's current epoch, and so was any listener that is still attached. -/
 theorem live_registration_is_of_current_epoch (cfg : Cfg) (hc : cfg.allChecked = true) (ops : List Op) :
@@ -433,6 +449,12 @@ theorem timed_stream_wait_sources_disarm_each_other (cfg : Cfg) (hc : cfg.allChe
       refine ⟨hdet, ?_⟩
       intro s' r' v e hs'
       exact (stale_inert cfg hc _).2.2.2.2.2 s' r' v e f hs' hdet
+
+/-- the hypotheses of `timed_stream_wait_sources_disarm_each_other` are met right after `(ev/read s n buf timeout)` suspended -/
+example :
+    let w := run Cfg.full init [.spawn 1, .run, .timeout 1 5000, .asyncStart 1 0 true]
+    (w.fibers 1).listener = some (0, true) ∧ (w.streams 0).readFiber = some 1 ∧ (w.fibers 1).canceled = false ∧ w.queue = [] ∧
+    (w.timers.map (fun t => (t.fiber, t.kind, t.schedId == (w.fibers 1).schedId))) = [(1, .timeout, true)] := by decide
 
 /-- a resume detaches the listener whatever the depth of the child-fiber chain below the task (try / defer / coro / with-deadline
 bodies that stay suspended across the wait) -/
